@@ -639,11 +639,15 @@ func (sc *SecretManagerClient) generateRootCertFromExistingFile(rootCertPath, re
 func (sc *SecretManagerClient) generateKeyCertFromExistingFiles(certChainPath, keyPath, resourceName string) (*security.SecretItem, error) {
 	// There is a remote possibility that key is written and cert is not written yet.
 	// To handle that case, check if cert and key are valid if they are valid then only send to proxy.
+	// The item that is sent is built from the very bytes that passed the check: reading the files again
+	// after the check would let a rotation slip in between and a pair that was never checked be sent.
 	o := backoff.DefaultOption()
 	o.InitialInterval = sc.configOptions.FileDebounceDuration
 	b := backoff.NewExponentialBackOff(o)
+	var item *security.SecretItem
 	secretValid := func() error {
-		_, err := tls.LoadX509KeyPair(certChainPath, keyPath)
+		var err error
+		item, err = sc.keyCertSecretItem(certChainPath, keyPath, resourceName)
 		return err
 	}
 	ctx, cancel := context.WithTimeout(context.Background(), totalTimeout)
@@ -651,9 +655,11 @@ func (sc *SecretManagerClient) generateKeyCertFromExistingFiles(certChainPath, k
 	if err := b.RetryWithContext(ctx, secretValid); err != nil {
 		return nil, err
 	}
-	return sc.keyCertSecretItem(certChainPath, keyPath, resourceName)
+	return item, nil
 }
 
+// keyCertSecretItem reads the certificate chain and the private key from the given files and returns them
+// only if they belong together.
 func (sc *SecretManagerClient) keyCertSecretItem(cert, key, resource string) (*security.SecretItem, error) {
 	certChain, err := sc.readFileWithTimeout(cert)
 	if err != nil {
@@ -661,6 +667,9 @@ func (sc *SecretManagerClient) keyCertSecretItem(cert, key, resource string) (*s
 	}
 	keyPEM, err := sc.readFileWithTimeout(key)
 	if err != nil {
+		return nil, err
+	}
+	if _, err := tls.X509KeyPair(certChain, keyPEM); err != nil {
 		return nil, err
 	}
 
